@@ -43,6 +43,7 @@ const (
 	closeTimeout = 5 * time.Second
 	prompt       = closeTimeout + t2*(retry+1) + t1 // "promptly": far below T3 = 30 s
 	gap          = 50 * time.Millisecond
+	slowFor      = 4 * time.Second // how long the slow handler of state close-slow-handler takes (< close timeout)
 )
 
 var states = []string{
@@ -53,6 +54,10 @@ var states = []string{
 	"multi-block",   // 2-block message: block 1 acknowledged, block 2 not yet granted
 	"mixed",         // one reply outstanding AND a later send bidding
 	"recv-busy",     // the peer is in the middle of transmitting a block; a sync and an async send were started meanwhile
+	// host role only: the library's ENQ meets the equipment's ENQ, the host yields, the block it then
+	// receives reaches a slow handler (inline on the line engine, in the middle of the unfinished
+	// send); a second send queues up; the generation is ended by Close() — not by the peer
+	"close-slow-handler",
 }
 
 type caseSpec struct {
@@ -181,7 +186,12 @@ func run(t *testing.T, cs caseSpec, onLeak func(string)) (res result) {
 	e2.Run(t, func(w *e2.World) {
 		w.OnLeak = onLeak
 		x := &exec{w: w, cs: cs, acceptedCh: make(chan struct{}, 4), listenedCh: make(chan struct{}, 4), peerSys: 0x60000000}
-		x.n = e2s1.New(w, e2s1.Opts{Active: cs.Active, Equip: cs.Equip, Device: device, Retry: retry, T1: t1, T2: t2, T4: t4,
+		slowHandler := func(m *hsms.DataMessage, _ hsms.SECS2Endpoint) {
+			if cs.State == "close-slow-handler" && m.Stream() == 5 {
+				time.Sleep(slowFor) // a slow (not a blocked) handler: it returns
+			}
+		}
+		x.n = e2s1.New(w, e2s1.Opts{Active: cs.Active, Equip: cs.Equip, Device: device, Retry: retry, T1: t1, T2: t2, T4: t4, OnData: slowHandler,
 			Conn:  []hsms.ConnOption{hsms.WithT3(cT3), hsms.WithT5(cT5), hsms.WithReconnectBackoff(100*time.Millisecond, 2), hsms.WithCloseTimeout(closeTimeout)},
 			Extra: []secs1.Option{secs1.WithDialer(x.dial), secs1.WithListener(x.listen)}})
 		defer func() {
@@ -215,6 +225,42 @@ func run(t *testing.T, cs caseSpec, onLeak func(string)) (res result) {
 		long := strings.Repeat("g1-m ", 80) // 400 bytes: two blocks, the token in both
 		var replySys [4]byte
 		step := ""
+		if cs.State == "close-slow-handler" {
+			x.send("sync", "g1-c", false, secs2.A("g1-c"))
+			if !x.ep.BidPending() {
+				res.harness = "generation 1 setup: no ENQ on the wire"
+				return
+			}
+			x.ep.Take(1)
+			x.ep.Write(e4.ENQ) // the equipment contends instead of granting the line
+			if err := x.ep.Expect(e4.EOT); err != nil {
+				res.harness = "generation 1 setup: the host did not yield to the contending equipment: " + err.Error()
+				return
+			}
+			blk := e4.Split(e4.Header{Device: device, R: true, Stream: 5, Function: 1, System: [4]byte{0x60, 0, 0, 2}}, []byte{0x41, 0x02, 'a', 'l'})[0]
+			x.ep.Write(blk.Marshal()...) // completes an inbound message: the slow handler runs now
+			x.send("sync", "g1-q", false, secs2.A("g1-q"))
+			tClose := w.Now()
+			cl := w.Go(func() { _ = x.n.C.Close() })
+			w.Advance(time.Second) // far below the handler's 4 s and T3 = 30 s
+			for _, c := range x.calls {
+				if !c.h.Done() {
+					bad("stale-waiter:"+c.kind, "send %s of the closing generation has not returned %v after Close() was called (the line engine is busy in a data handler that takes %v; T3=%v)", c.token, w.Now()-tClose, slowFor, cT3)
+					return
+				}
+				if c.err == nil {
+					bad("stale-success:"+c.kind, "send %s returned success although its block was never granted the line", c.token)
+					return
+				}
+			}
+			w.Advance(slowFor + closeTimeout)
+			if !cl.Done() {
+				bad("close-blocked", "Close() has not returned %v after it was called although the handler returned after %v", w.Now()-tClose, slowFor)
+				return
+			}
+			res.outcome = fmt.Sprintf("%s:%s:sends-released-by-close", map[bool]string{true: "active", false: "passive"}[cs.Active], cs.State)
+			return
+		}
 		switch cs.State {
 		case "waiting-reply", "mixed":
 			x.send("sync-W", "g1-w", true, secs2.A("g1-w"))
@@ -418,7 +464,7 @@ func check(c *vfw.Ctx, t *testing.T, cs caseSpec) {
 func TestCheck(t *testing.T) {
 	vfw.Main(t, "C09", func(c *vfw.Ctx) {
 		c.Level("model_checking")
-		c.Rule("SECS-I part (E2, real secs1 connection, E4 peer; T3=30s, T5=2s, T1=100ms T2=300ms RTY=1): roles active/passive (thorough also host) x generation-1 state {W primary acknowledged and waiting for its reply; bidding unanswered; a synchronous send queued behind a stuck bid; two fire-and-forget sends queued behind a stuck bid; between block 1 and block 2 of a 2-block message; reply outstanding AND another send bidding; a synchronous and an asynchronous send started while the peer is in the middle of transmitting a block} x fault {peer close, peer reset}: after the reconnect every generation-1 call has returned within close-timeout + T2*(RTY+1) + T1 of the cut with a definite error (async: accepted), generation 2's socket carries no byte of a generation-1 message for 2 s idle, after a stale reply to the generation-1 primary, and after a fresh send; the fresh send is transmitted as the first block and returns nil")
+		c.Rule("SECS-I part (E2, real secs1 connection, E4 peer; T3=30s, T5=2s, T1=100ms T2=300ms RTY=1): roles active/passive (thorough also host) x generation-1 state {W primary acknowledged and waiting for its reply; bidding unanswered; a synchronous send queued behind a stuck bid; two fire-and-forget sends queued behind a stuck bid; between block 1 and block 2 of a 2-block message; reply outstanding AND another send bidding; a synchronous and an asynchronous send started while the peer is in the middle of transmitting a block} + {host role: contention yield whose inbound block reaches a slow (4 s) handler, a second send queued, generation ended by Close(): both sends return within 1 s} x fault {peer close, peer reset}: after the reconnect every generation-1 call has returned within close-timeout + T2*(RTY+1) + T1 of the cut with a definite error (async: accepted), generation 2's socket carries no byte of a generation-1 message for 2 s idle, after a stale reply to the generation-1 primary, and after a fresh send; the fresh send is transmitted as the first block and returns nil")
 		c.Assume("testing/synctest virtual time", "sim in-memory network", "E4 peer (peer/e4.go), reference block codec (ref/e4)", "message bodies carry generation tokens (g1-/g2-) that cannot occur in headers or checksums by construction of the scan (a false match would need the three bytes 'g1-' in a block header/checksum)")
 		if c.Replay != nil {
 			var cs caseSpec
@@ -437,6 +483,9 @@ func TestCheck(t *testing.T) {
 			for _, equip := range equips {
 				for _, st := range states {
 					for _, fault := range []string{"close", "reset"} {
+						if st == "close-slow-handler" {
+							continue // enumerated below (host role, ended by Close)
+						}
 						n++
 						if !c.Next() {
 							continue
@@ -444,6 +493,12 @@ func TestCheck(t *testing.T) {
 						check(c, t, caseSpec{Active: active, Equip: equip, State: st, Fault: fault})
 					}
 				}
+			}
+		}
+		for _, active := range []bool{true, false} {
+			n++
+			if c.Next() {
+				check(c, t, caseSpec{Active: active, Equip: false, State: "close-slow-handler", Fault: "Close()"})
 			}
 		}
 		if c.Shard == 0 {
